@@ -4,6 +4,8 @@ mod merge;
 mod intoresp;
 mod remote;
 mod builders;
+mod history;
+mod history_progs;
 
 fn main() {
     std::panic::set_hook(Box::new(|_| {}));
@@ -14,6 +16,7 @@ fn main() {
         Some("intoresp") => intoresp::run(tier),
         Some("remote") => remote::run(tier),
         Some("builders") => builders::run(tier),
+        Some("history") => history::run(tier),
         _ => {
             eprintln!("usage: rt merge|intoresp|remote|builders quick|thorough");
             std::process::exit(2);
